@@ -1,10 +1,121 @@
 /-
-  C20 — property theorems (placeholder stage: real theorems follow).
+  C20 — property theorems.  Every theorem is about EVERY history: `run St.init ops` for an
+  arbitrary list `ops` of the model's atomic operations (express / data / nack / clock advance /
+  timer goroutine start / timer goroutine run / attach / detach / incoming Interest / reply), i.e.
+  every interleaving of arrivals and timer expirations the engine's lock admits, with no bound on
+  the length of the history, the number of pending Interests or the depth of names.
+
+  The ghost logs `exprs` (one record per successful Express) and `cbs` (one record per callback
+  invocation) are what the theorems talk about; `log_faithful_*` show that these logs are exactly
+  the outputs of the operations.
 -/
-import NdnVerif.C20.Model
-import NdnVerif.C20.Spec
+import NdnVerif.C20.LemmasStep
 namespace Ndn.C20
 
+/-- the Interest record as the specification sees it -/
+def Expr.toSpec (x : Expr) : Spec.Int := ⟨x.node, x.final, x.cbp, x.dig, x.t, x.life⟩
+
+/-- callbacks made by one operation, as reported by its output -/
+def Out.callbacks : Out → List Cb
+  | .cbs l => l
+  | _ => []
+
+/-! ### the logs are the outputs -/
+
+/-- the callback log grows by exactly the callbacks the operation reports -/
+theorem log_faithful_cbs (s : St) (op : Op) : (step s op).1.cbs = s.cbs ++ (step s op).2.callbacks := by
+  cases op <;> simp only [step] <;> (repeat' split) <;> simp [Out.callbacks]
+
+/-- a callback is logged with the instant at which the operation runs -/
+theorem log_faithful_time (s : St) (op : Op) : ∀ c ∈ (step s op).2.callbacks, c.t = s.now := by
+  cases op <;> simp only [step] <;> (repeat' split) <;> simp [Out.callbacks] <;>
+    (intros; subst_vars; rfl)
+
+/-- `Express` succeeds exactly when the name is not empty, and then (and only then) a record with a
+    fresh id, the current instant and the requested lifetime (default 4 s) is logged -/
+theorem log_faithful_express (s : St) (final : Name) (cbp : Bool) (life : Option Nat) :
+    (final = [] → (step s (.express final cbp life)) = (s, .exprErr)) ∧
+    (final ≠ [] → (step s (.express final cbp life)).2 = .expressed s.exprs.length ∧
+      (step s (.express final cbp life)).1.exprs = s.exprs ++
+        [⟨s.exprs.length, final, (splitDigest final).2, cbp, (splitDigest final).1, s.now,
+          life.getD defaultLife⟩]) := by
+  constructor
+  · intro h; subst h; simp [step]
+  · intro h
+    cases hl : final.getLast? with
+    | none => simp [List.getLast?_eq_none_iff] at hl; exact absurd hl h
+    | some last => simp [step, hl]
+
+/-! ### exactly once -/
+
+/-- **at most once**: in every history, no expressed Interest has its callback invoked twice
+    (whatever the kinds of the two invocations, whichever interleaving of Data, Nack and timers) -/
+theorem callback_at_most_once (ops : List Op) : ((run St.init ops).cbs.map (·.id)).Nodup :=
+  (Inv1.init.run ops).cbs_nodup
+
+example : ((run St.init [.express [⟨8, [97]⟩] false (some 100), .express [⟨8, [97]⟩] true none,
+    .data [⟨8, [97]⟩] [1], .data [⟨8, [97]⟩] [1], .setTime 200000, .timerStart 0, .timerRun 0]).cbs.map (·.id))
+    = [0, 1] := by decide
+
+/-- **exactly once after the deadline**: in every history, once the clock has passed
+    `express instant + lifetime + margin` of an expressed Interest and every timer that is due has
+    run (or was cancelled), its callback has been invoked — exactly once -/
+theorem callback_exactly_once_after_deadline (ops : List Op) (id : Nat) (x : Expr)
+    (hx : (run St.init ops).exprs[id]? = some x)
+    (hquiet : ∀ (k : Nat) (tm : Tmr), (run St.init ops).timers[k]? = some tm → tm.fire ≤ (run St.init ops).now →
+      tm.st = .fired ∨ tm.st = .cancelled)
+    (hlate : x.t + x.life + margin ≤ (run St.init ops).now) :
+    ∃ c ∈ (run St.init ops).cbs, c.id = id ∧ ∀ c' ∈ (run St.init ops).cbs, c'.id = id → c' = c := by
+  have I := Inv1.init.run ops
+  rcases I.cover id (lt_of_getElem? hx) with ⟨c, hc, hid⟩ | ⟨i, e, he, hid⟩
+  · refine ⟨c, hc, hid, ?_⟩
+    intro c' hc' hid'
+    exact inj_of_nodup_map _ _ I.cbs_nodup c' c hc' hc (by rw [hid, hid'])
+  · exfalso
+    obtain ⟨_, tm, x', h2, _, h4, h5, h6, h7, _⟩ := I.own i e he
+    rw [hid, hx] at h6; cases h6
+    rw [hid] at h2
+    have := hquiet id tm h2 (by rw [h4, h7]; exact hlate)
+    rcases h5 with h5 | ⟨h5, _⟩ <;> rcases this with h | h <;> rw [h] at h5 <;> cases h5
+
+example : ∃ c ∈ (run St.init [.express [⟨8, [97]⟩] false (some 100), .setTime 10100, .timerStart 0,
+    .timerRun 0]).cbs, c.id = 0 ∧ c.kind = .timeout := by decide
+
+/-! ### what a callback is given -/
+
+/-- **Data satisfies**: in every history, every callback invoked with Data was expressed for a name
+    the Data satisfies: the same name, or a prefix of the Data name only if CanBePrefix was set, and
+    the implicit digest, if one was requested, equals the Data's digest -/
+theorem data_callback_satisfies (ops : List Op) : ∀ c ∈ (run St.init ops).cbs, ∀ (nm : Name) (dg : Bytes),
+    c.kind = .data nm dg → ∃ x : Expr, (run St.init ops).exprs[c.id]? = some x ∧
+      Spec.satisfies x.toSpec nm dg = true :=
+  (Inv1.init.run ops).dsat
+
+example : (run St.init [.express [⟨8, [97]⟩] true (some 100), .express [⟨8, [97]⟩] false (some 100),
+    .data [⟨8, [97]⟩, ⟨8, [98]⟩] [1]]).cbs = [⟨0, .data [⟨8, [97]⟩, ⟨8, [98]⟩] [1], 0⟩] := by decide
+
+/-- **timeout not early**: in every history, a callback invoked with a timeout happens no earlier
+    than the Interest's lifetime after it was expressed -/
+theorem timeout_not_early (ops : List Op) : ∀ c ∈ (run St.init ops).cbs, c.kind = .timeout →
+    ∃ x : Expr, (run St.init ops).exprs[c.id]? = some x ∧ Spec.timeoutOk x.toSpec c.t = true := by
+  intro c hc hk
+  obtain ⟨x, h1, h2⟩ := (Inv1.init.run ops).tout c hc hk
+  exact ⟨x, h1, by simp only [Spec.timeoutOk, Expr.toSpec]; exact decide_eq_true h2⟩
+
+example : (run St.init [.express [⟨8, [97]⟩] false (some 100), .setTime 10100, .timerStart 0,
+    .timerRun 0]).cbs = [⟨0, .timeout, 10100⟩] := by decide
+
+/-! ### replies -/
+
+/-- the deadline given to the handler is the arrival instant plus the Interest's lifetime (4 s if
+    it carries none) -/
+theorem interest_deadline (s : St) (name : Name) (life : Option Nat) (h : Option Nat) (dl r : Nat)
+    (ho : (step s (.interest name life)).2 = .handled h dl r) : dl = s.now + life.getD defaultLife := by
+  simp only [step] at ho
+  split at ho <;> cases ho <;> rfl
+
+/-- **reply only before the deadline**: `Reply` transmits only if the clock has not passed the
+    deadline of that Interest -/
 theorem reply_only_before_deadline (s : St) (r : Nat) (x : Rx) (hx : s.rx[r]? = some x)
     (h : (step s (.reply r)).2 = .sent) : Spec.replyOk x.deadline s.now = true := by
   simp only [step, hx] at h
@@ -12,5 +123,9 @@ theorem reply_only_before_deadline (s : St) (r : Nat) (x : Rx) (hx : s.rx[r]? = 
   split at h
   · cases h
   · omega
+
+example : (step (run St.init [.attach [] 7, .interest [⟨8, [97]⟩] (some 5), .setTime 5]) (.reply 0)).2 = .sent ∧
+    (step (run St.init [.attach [] 7, .interest [⟨8, [97]⟩] (some 5), .setTime 6]) (.reply 0)).2 = .late := by
+  decide
 
 end Ndn.C20
